@@ -138,6 +138,17 @@ def match_known(known: list[dict[str, str]], v: Violation) -> dict[str, str] | N
 
 
 # ---------------------------------------------------------------------------
+# cooperative stop: the parent creates this file once it has enough violations (or an error);
+# workers look at it between sub-cases so that a badly broken tree does not keep every worker busy
+
+_STOP_FILE = ""
+
+
+def should_stop() -> bool:
+    return bool(_STOP_FILE) and os.path.exists(_STOP_FILE)
+
+
+# ---------------------------------------------------------------------------
 # worker side
 
 _MODULE: Any = None
@@ -157,6 +168,8 @@ def _worker_chunk(prop: str, seed: int, tier: str, items: list[Any]) -> tuple[St
     found: list[dict[str, Any]] = []
     errors: list[str] = []
     for kind, payload in items:
+        if should_stop():
+            break
         try:
             if kind == "seeded":
                 case = mod.gen_case(core.case_seed(seed, prop, payload), tier)
@@ -312,6 +325,12 @@ def run_check(prop: str, tier: str, seed: int, jobs: int, budget_s: float) -> in
     errors: list[str] = []
     skipped = 0
     next_index = 0
+    global _STOP_FILE
+    _STOP_FILE = os.path.join(simenv.scratch_base(), f"a816-verif-stop-{os.getpid()}")
+    try:
+        os.unlink(_STOP_FILE)
+    except OSError:
+        pass
     ctx = multiprocessing.get_context("fork")
     with cf.ProcessPoolExecutor(max_workers=jobs, mp_context=ctx) as pool:
         pending: set[cf.Future[Any]] = set()
@@ -346,13 +365,22 @@ def run_check(prop: str, tier: str, seed: int, jobs: int, budget_s: float) -> in
                 stop = True
             if errors or elapsed > wall_cap:
                 stop = True
+            if found and elapsed > 90:
+                stop = True  # something is reported already: do not spend minutes collecting more
             if stop:
+                if (found or errors) and not os.path.exists(_STOP_FILE):
+                    open(_STOP_FILE, "w").close()
                 for fut in list(pending):
                     if fut.cancel():
                         pending.discard(fut)
                         skipped += 1
                 limit = next_index
     explore_s = time.time() - t0
+    try:
+        os.unlink(_STOP_FILE)
+    except OSError:
+        pass
+    _STOP_FILE = ""
 
     # ---- verdicts
     known = load_known(prop)
